@@ -161,10 +161,20 @@ func verifC40Compare(want *verifVNode, got *Node, nulRepl bool, path string) str
 	if len(got.Attr) != len(want.Attrs) {
 		return fmt.Sprintf("%s<%s>: want %d attributes %q, got %d %q", path, want.Tag, len(want.Attrs), want.Attrs, len(got.Attr), got.Attr)
 	}
+	// attribute order is not part of the contract (the parser sorts the attributes of formatting
+	// elements for its Noah's Ark comparison): match by key, keys are unique in generated trees
 	for i, a := range want.Attrs {
-		g := got.Attr[i]
+		var g *Attribute
+		for j := range got.Attr {
+			if got.Attr[j].Key == a.Key && got.Attr[j].Namespace == "" {
+				g = &got.Attr[j]
+			}
+		}
+		if g == nil {
+			return fmt.Sprintf("%s<%s>: attributes changed: attribute %d %s=%q is missing, got %q", path, want.Tag, i, a.Key, a.Val, got.Attr)
+		}
 		wv := strings.ReplaceAll(a.Val, "\x00", "\ufffd")
-		if g.Key != a.Key || g.Namespace != "" || !(verifC40ValueEq(g.Val, wv) || verifC40ValueEq(g.Val, strings.ReplaceAll(a.Val, "\x00", ""))) {
+		if !(verifC40ValueEq(g.Val, wv) || verifC40ValueEq(g.Val, strings.ReplaceAll(a.Val, "\x00", ""))) {
 			return fmt.Sprintf("%s<%s>: attribute %d: want %s=%q, got %s=%q", path, want.Tag, i, a.Key, a.Val, g.Key, g.Val)
 		}
 	}
@@ -313,6 +323,9 @@ func TestVerif_C40(t *testing.T) {
 			if tok.Type == DoctypeToken && tt == DoctypeToken && strings.TrimLeft(tok.Data, " \n\r\t\f") == got.Data {
 				key = "token-string-roundtrip-doctype-leading-space"
 			}
+			if tok.Type == CommentToken && tt == CommentToken && strings.Contains(tok.Data, "\r") && verifNormNL(tok.Data) == got.Data {
+				key = "token-string-roundtrip-comment-cr-becomes-lf"
+			}
 			c.Violation(key, "token %#v (from raw %q) has String() %q which tokenizes to %#v", tok, verifClip(from, 120), s, got)
 			return
 		}
@@ -422,7 +435,7 @@ func TestVerif_C40(t *testing.T) {
 			if m1 != "" {
 				if m2 := verifC40Compare(wrapper, b2.FirstChild, true, ""); m2 != "" {
 					key := "render-parse-value-changed"
-					if strings.Contains(m1, "additional child") || strings.Contains(m1, "want element") || strings.Contains(m1, "missing child") || strings.Contains(m1, "attributes") || strings.Contains(m1, "got Element") {
+					if strings.Contains(m1, "additional child") || strings.Contains(m1, "want element") || strings.Contains(m1, "missing child") || strings.Contains(m1, "attributes changed") || strings.Contains(m1, "got Element") {
 						key = "render-parse-structure-changed"
 					}
 					c.Violation(key, "%s; rendering %q", m1, out)
